@@ -112,7 +112,7 @@ class ThisDeviceType(XMLTypeBase):
 class ThisModelType(XMLTypeBase):
     Manufacturer = cp.SubElementListProperty(default_ns_helper.DPWS.tag('Manufacturer'),
                                              value_class=LocalizedStringType)
-    ManufacturerUrl = cp.NodeStringProperty(default_ns_helper.DPWS.tag('ManufacturerUrl'))
+    ManufacturerUrl = cp.NodeStringProperty(default_ns_helper.DPWS.tag('ManufacturerUrl'), is_optional=True)
     ModelName = cp.SubElementListProperty(default_ns_helper.DPWS.tag('ModelName'),
                                           value_class=LocalizedStringType)
     ModelNumber = cp.NodeStringProperty(default_ns_helper.DPWS.tag('ModelNumber'), is_optional=True)
